@@ -104,10 +104,13 @@ fn oneshot(map: &Beatmap, mode: u8, d: &Difficulty, passed: u64, s: &ScoreState)
 }
 
 pub fn case(rng: &mut Rng, max_objects: usize) -> String {
+    let buzz = rng.chance(1, 10);
     let gm = gen_any(
         rng,
         &GenOpts {
             max_objects,
+            mode: if buzz { Some(2) } else { None },
+            shape: if buzz { Some(crate::gen::Shape::Buzz) } else { None },
             ..Default::default()
         },
     );
